@@ -220,7 +220,7 @@ Step(e) ==
                      THEN [j \in 1..NEl(e.E) |-> Dot(e.feed, ColD(e.E, j))] ELSE <<>>,
              base |-> <<>>]
        ELSE st)
-   ELSE IF e.ev = "solve" /\ e.how = "return" /\ e.out = "converged" /\ st.ok /\ e.finite
+   ELSE IF e.ev = "solve" /\ e.how = "return" /\ e.out = "converged" /\ st.ok /\ e.finite /\ e.pos
            /\ e.key \notin DOMAIN st.base
         THEN [st EXCEPT !.base = (e.key :> [n |-> e.n, ntot |-> e.ntot]) @@ st.base]
    ELSE st
